@@ -192,6 +192,7 @@ class Lemma:
         self.ghost = kw.pop('ghost', {})
         self.requires = kw.pop('requires', None)
         self.ensures = kw.pop('ensures', None)
+        self.ensures_names = kw.pop('ensures_names', None)
         self.invariants = kw.pop('invariants', {})
         self.decreases = kw.pop('decreases', {})
         self.loop_locals = kw.pop('loop_locals', {})
